@@ -251,7 +251,7 @@ def replay_behaviour(ctx, beh, fmt, workdir):
 # ---- V: random histories --------------------------------------------------------------------------------------------------------------
 STATUS_READS = [('status', lambda b: b.status), ('shapes', lambda b: b.shapes), ('nbytes', lambda b: b.nbytes), ('mloc', lambda b: b.mloc), ('dtypes', lambda b: b.dtypes),
                 ('len', lambda b: len(b)), ('keys', lambda b: list(b.keys())), ('iter', lambda b: list(b)), ('contains', lambda b: 'f1' in b), ('repr', lambda b: repr(b)),
-                ('index', lambda b: b.index), ('shape', lambda b: b.shape), ('iter_element', lambda b: [x for x in b.iter_element()]), ('equals_self', lambda b: b.equals(b))]
+                ('index', lambda b: b.index), ('shape', lambda b: b.shape), ('equals_self', lambda b: b.equals(b))]
 
 
 def history(ctx, fmt, workdir, events):
@@ -367,21 +367,24 @@ def history(ctx, fmt, workdir, events):
             log(ev)
         elif q < 0.78:
             # items() / values: everything at once without a bound, one label at a time with one
-            which = rng.choice(['items', 'values'])
+            which = rng.choice(['items', 'values', 'iter_element', 'iter_element_items'])
             if pre['mp'] == 0:
-                out, r = w.outcome_of((lambda: list(bus.items())) if which == 'items' else (lambda: bus.values))
+                out, r = w.outcome_of({'items': lambda: list(bus.items()), 'values': lambda: bus.values, 'iter_element': lambda: list(bus.iter_element()),
+                                       'iter_element_items': lambda: list(bus.iter_element_items())}[which])
                 post, problems = w.project(bus)
                 ok_frames = True
                 if out == 'ok':
-                    frames = [f for _, f in r] if which == 'items' else list(r)
+                    frames = [f for _, f in r] if which in ('items', 'iter_element_items') else list(r)
                     ok_frames = [decode(f) for f in frames] == [(lab, 1) for lab in pre['labels']]
                 log({'name': 'loadall', 'bus': i + 1, 'sel': pre['labels'], 'route': which, 'pre': pre, 'post': post, 'outcome': out, 'got': 1 if ok_frames else -1,
                      'problems': problems + ([] if ok_frames else ['%s did not deliver the written Frames in label order' % which]), 'coh': coh, 'fver': fver})
             else:
-                it = iter(bus.items())
+                it = iter({'items': bus.items, 'values': bus.items, 'iter_element_items': bus.iter_element_items}.get(which, bus.iter_element)())
                 for lab in pre['labels']:
                     p0, _ = w.project(bus)
                     out, item = w.outcome_of(lambda: next(it))
+                    if out == 'ok' and which == 'iter_element':
+                        item = (name_of(lab), item)          # (the values form yields the Frame alone)
                     post, problems = w.project(bus)
                     got = 0
                     if out == 'ok':
@@ -556,10 +559,26 @@ def main(ctx):
             ctx.violation('V', 'recorded %s (%s) violates %s' % (ev['name'], ev.get('route'), rej[ev['id']][0]),
                           case={k: ev[k] for k in ('name', 'fmt', 'route', 'sel', 'pre', 'coherent', 'ver', 'labels_written') if k in ev and ev[k] != []},
                           actual={k: ev[k] for k in ('outcome', 'got', 'post', 'new', 'labels_read', 'equal', 'ok') if k in ev}, clause=rej[ev['id']][0], expected=rej[ev['id']][1])
+    # twin sweep: a Bus over a zip store, loaded piecemeal under max_persist by a random access history, against a Bus holding the same Frames in
+    # memory; one access call (listed, or found by reading every public attribute) on both: the Frames handed out are the Frames stored
+    import json
+    from . import twin
+    tdir = os.path.join(workdir, 'twin')
+    os.makedirs(tdir, exist_ok=True)
+    tev = twin.events(ctx.rng, 700 if quick else 15000, [twin.bus_pair_factory(tdir)])
+    for k, ev in enumerate(tev):
+        ev['id'] = k
+    ctx.count('V_twin_bus', len(tev))
+    trej = ctx.validate_events('Trace_C02', 'Trace.cfg', tev, chunk=600)
+    for ev in tev:
+        if ev['id'] in trej:
+            ctx.violation('V', 'a call on a lazily loaded Bus differs from the same call on a Bus holding the Frames in memory: %s' % ev['what'], case={'method': ev['what'], 'info': ev['info']},
+                          actual=json.loads(ev['stale']), expected=json.loads(ev['fresh']), clause=trej[ev['id']][0])
+    shutil.rmtree(tdir, ignore_errors=True)
     ctx.sample({'leg': 'V', 'event': {k: events[0][k] for k in ('name', 'fmt', 'sel', 'pre', 'post', 'outcome')}})
     return ctx.finish(rule='M: 3 labels, <=2 live Bus objects, max_persist None / 1 / 2, every history of <=5 calls (plus 5 labels, one Bus, max_persist 2 / 3, depth 3) (single label, label lists in any order, derivations) interleaved with touch (newer / older mtime), rewrite, delete; '
                            'R: simulated behaviours driven through real Buses over zip pickle / csv / tsv and sqlite stores with the cache state compared after each step; '
-                           'V: random histories (1-8 labels, max_persist None / 1 / 2 / 3 / 4 / n, a third of them starting with a late label loaded first and a slice spanning it, 8 selection routes, get(), items() / values, 14 status reads, 7 derivation routes, file touched newer / older, rewritten, deleted) validated statefully; write / reopen round trips of varied Frames per format',
+                           'V: random histories (1-8 labels, max_persist None / 1 / 2 / 3 / 4 / n, a third of them starting with a late label loaded first and a slice spanning it, 8 selection routes, get(), items() / values / iter_element(_items), 13 status reads, 7 derivation routes, file touched newer / older, rewritten, deleted) validated statefully; write / reopen round trips of varied Frames per format; twin sweep: one access call (about 35 listed, the rest found among the public attributes) on a Bus loaded piecemeal from a zip store under max_persist against a Bus holding the same Frames in memory',
                       trusted=['TLC 1.8 + CommunityModules', 'os.utime / os.path.getmtime', 'assumption: a modified file never regains exactly the mtime the Store recorded'])
 
 
